@@ -45,6 +45,7 @@ CONSTANTS Starts,        \* start instances (one caller process each)
                          \* client-table delete and the agent re-registration of the same id (excludes K2/K3)
           AllowClose,    \* the closer process exists
           AllowDo,       \* a caller may be Client.Do: after Start returned nil it waits for its handler to finish
+          AllowIndicate, \* a caller may be Client.Indicate (Start without a handler): one write, no transaction
           None
 
 RD == "RD"
@@ -122,7 +123,9 @@ StartBegin(s) ==
   /\ pc[s] = "idle"
   /\ IF closed
      THEN /\ Goto(s, "done") /\ ret' = [ret EXCEPT ![s] = "err"] /\ UNCHANGED loc
-     ELSE /\ Goto(s, "S_now") /\ SetLoc(s, [NoLoc EXCEPT !.id = IdOf[s], !.s = s]) /\ UNCHANGED ret
+     ELSE \* with a handler: on to the clock reading; an indication goes straight to conn.Write
+          /\ \E ind \in (IF AllowIndicate THEN BOOLEAN ELSE {FALSE}) : Goto(s, IF ind THEN "I_write" ELSE "S_now")
+          /\ SetLoc(s, [NoLoc EXCEPT !.id = IdOf[s], !.s = s]) /\ UNCHANGED ret
   /\ UNCHANGED << closed, closeChan, connCloses, ct, at, aclosed, alock, obj, clock, idleLeft, rto, rtoBudget, inbox, fails, resps, junk,
                   wsucc, wlog, hcalls, hlast, fbcalls, ended >>
 
@@ -193,6 +196,16 @@ StartStopRet(s) ==
   /\ Goto(s, "done") /\ ret' = [ret EXCEPT ![s] = "err"]
   /\ UNCHANGED << closed, closeChan, connCloses, ct, at, aclosed, alock, obj, clock, idleLeft, rto, rtoBudget, loc, inbox, fails, resps, junk,
                   wsucc, wlog, hcalls, hlast, fbcalls, ended >>
+
+\* Client.Indicate: nothing is registered anywhere; the result of the write is the result of the call
+\* (ret "ind": written; the transaction tables never hear of it, a reply to it is a message for an unknown id)
+IndicateWrite(s) ==
+  /\ pc[s] = "I_write"
+  /\ \E ok \in WriteOutcomes :
+       /\ LogWrite(IdOf[s], 0, clock, clock, rto, ok)
+       /\ Goto(s, "done") /\ ret' = [ret EXCEPT ![s] = IF ok THEN "ind" ELSE "err"]
+  /\ UNCHANGED << closed, closeChan, connCloses, ct, at, aclosed, alock, obj, clock, idleLeft, rto, rtoBudget, loc, inbox, resps, junk,
+                  hcalls, hlast, fbcalls, ended >>
 
 \* Client.Do: callbackWaitHandler.wait() returns once HandleEvent has run the caller's callback to its end
 \* (the wait handler's condition variable is signalled after the callback returned)
@@ -467,7 +480,7 @@ CbStep(p) == CbLookup(p) \/ UserHandler(p) \/ Fallback(p) \/ RetxNow(p) \/ RetxR
              \/ RetxStop(p) \/ CbExit(p)
 
 Next ==
-  \/ \E s \in Starts : StartBegin(s) \/ StartNow(s) \/ StartRegister(s) \/ StartAgent(s) \/ StartWrite(s) \/ StartStop(s) \/ StartStopRet(s) \/ DoReturn(s)
+  \/ \E s \in Starts : StartBegin(s) \/ StartNow(s) \/ StartRegister(s) \/ StartAgent(s) \/ StartWrite(s) \/ StartStop(s) \/ StartStopRet(s) \/ DoReturn(s) \/ IndicateWrite(s)
   \/ \E p \in Procs : CbStep(p)
   \/ ReaderRead \/ ReaderProcess \/ CollectorRun \/ CollectorIdleRun
   \/ CloseBegin \/ CloseCollector \/ CloseAgent \/ CloseConnAndChan \/ CloseWait
@@ -484,6 +497,8 @@ StartErrNoCall == \A s \in Starts : ret[s] = "err" => hcalls[s] = 0
 CloseReturned == pc[X] = "X_done"
 ExactlyOnceAfterClose == CloseReturned => \A s \in Starts : (pc[s] \in {"done", "D_wait"} /\ ret[s] = "nil") => hcalls[s] = 1
 \* Do returns only after its handler ran, and is never left waiting once the handler has run and Close returned
+\* an indication never has a handler call and never enters a table
+IndicationsAreNotTransactions == \A s \in Starts : ret[s] = "ind" => hcalls[s] = 0
 DoWaits == [][ \A s \in Starts : (pc[s] = "D_wait" /\ pc'[s] = "done") => hcalls[s] >= 1 ]_vars
 DoNotStuck == CloseReturned => \A s \in Starts : pc[s] = "D_wait" => hcalls[s] >= 1
 \* the handler of a start instance sees an event for its own transaction id
